@@ -183,6 +183,17 @@ class ToLean:
         self.params = params
         self.used = []
 
+    def truthy(self, e):
+        """Python truth value of an expression: bool as is, str -> non-empty, int -> non-zero"""
+        a, ta = self.tr(e)
+        if ta == 'Bool':
+            return a
+        if ta == 'Str':
+            return f'(decide ({a} ≠ ""))'
+        if ta == 'Int':
+            return f'(decide ({a} ≠ (0 : Int)))'
+        raise TranslateError(f'truth value of a {ta}: {unp(e)}')
+
     def tr(self, e):
         """returns (lean text, type in {'Int','Bool','Str','Rat'})"""
         key = unp(e)
@@ -209,8 +220,8 @@ class ToLean:
             a, ta = self.tr(e.operand)
             if isinstance(e.op, ast.USub) and ta in ('Int', 'Rat'):
                 return f'(-{a})', ta
-            if isinstance(e.op, ast.Not) and ta == 'Bool':
-                return f'(!{a})', 'Bool'
+            if isinstance(e.op, ast.Not):
+                return f'(!{self.truthy(e.operand)})', 'Bool'
             raise TranslateError(f'unary {unp(e)}')
         if isinstance(e, ast.BinOp):
             if isinstance(e.op, ast.Div):
@@ -242,11 +253,10 @@ class ToLean:
                 return f'(Py.bxor {a} {b})', 'Int'
             raise TranslateError(f'operator in {unp(e)}')
         if isinstance(e, ast.BoolOp):
-            parts = [self.tr(v) for v in e.values]
-            if any(t != 'Bool' for _, t in parts):
-                raise TranslateError(f'and/or over non-booleans {unp(e)}')
+            # only the truth value of an and/or is translated (sites are conditions), not Python's operand-returning semantics
+            parts = [self.truthy(v) for v in e.values]
             j = ' && ' if isinstance(e.op, ast.And) else ' || '
-            return '(' + j.join(p for p, _ in parts) + ')', 'Bool'
+            return '(' + j.join(parts) + ')', 'Bool'
         if isinstance(e, ast.Compare):
             terms = [e.left] + list(e.comparators)
             outs = []
@@ -254,12 +264,28 @@ class ToLean:
                 outs.append(self.cmp(l, op, r))
             return ('(' + ' && '.join(outs) + ')' if len(outs) > 1 else outs[0]), 'Bool'
         if isinstance(e, ast.IfExp):
-            c, tc = self.tr(e.test)
+            c = self.truthy(e.test)
             a, ta = self.tr(e.body)
             b, tb = self.tr(e.orelse)
-            if tc != 'Bool' or ta != tb:
+            if ta != tb:
                 raise TranslateError(f'conditional {unp(e)}')
             return f'(if {c} then {a} else {b})', ta
+        if isinstance(e, ast.JoinedStr):
+            parts = []
+            for v in e.values:
+                if isinstance(v, ast.Constant) and isinstance(v.value, str):
+                    parts.append(lean_str(v.value))
+                elif isinstance(v, ast.FormattedValue) and v.conversion == -1 and v.format_spec is None:
+                    a, ta = self.tr(v.value)
+                    if ta == 'Str':
+                        parts.append(a)
+                    elif ta == 'Int':
+                        parts.append(f'(Py.strOfInt {a})')
+                    else:
+                        raise TranslateError(f'f-string field of type {ta}: {unp(e)}')
+                else:
+                    raise TranslateError(f'f-string with conversion / format spec: {unp(e)}')
+            return '(' + ' ++ '.join(parts or ['""']) + ')', 'Str'
         if isinstance(e, ast.Call):
             if isinstance(e.func, ast.Name) and not e.keywords:
                 f = e.func.id
@@ -353,6 +379,8 @@ def site_def(name, expr, spec):
     params = {k: (v[0], v[1]) for k, v in params.items()}
     t = ToLean(params)
     body, ty = t.tr(expr)
+    if spec.get('type') == 'Bool' and ty in ('Str', 'Int'):
+        body, ty = t.truthy(expr), 'Bool'
     if spec.get('type') and spec['type'] != ty:
         raise TranslateError(f'site {name}: expression has type {ty}, declared {spec["type"]}')
     # parameter list in the declared order (stable signature even if a rewrite stops using one)
